@@ -64,24 +64,13 @@ def run_deductive(spec, res, tier):
     ledger = load_json(os.path.join(VERIF, 'ledger.json'), {})
     timeout = 10000 if tier == 'quick' else 60000
     for modname in spec.get('contracts', []):
-        m = importlib.import_module('contracts.' + modname)
-        cons = {q: Contract(q, d, m.ALIASES) for q, d in m.C.items()}
-        eng = Executor(cons, m.ALIASES, getattr(m, 'MACROS', {}), getattr(m, 'GLOBALS', {}))
-        eng.exc_parents = getattr(m, 'EXC_PARENTS', {})
-        eng.sigs = {}
-        nodes = {}
+        from .execute import make_engine
+        eng, cons, nodes, shas, errs = make_engine(modname, REPO)
+        res.errors.extend(errs)
+        res.functions.update(shas)
         for q, c in cons.items():
             if c.d.get('external'):
                 res.trusted.add(f'{q} (external, contract assumed)')
-                continue
-            try:
-                node, seg, sha, path = extract.find(q, REPO)
-            except KeyError as e:
-                res.errors.append(f'target missing: {e}')
-                continue
-            nodes[q] = node
-            eng.sigs[q] = extract.signature_defaults(node)
-            res.functions[q] = sha
         targets = spec.get('targets', {}).get(modname)
         obls = []
         for q, c in cons.items():
